@@ -131,15 +131,17 @@ type Trace struct {
 	Noops       int
 	OpsDone     int
 
-	DivCalls      int
-	DivSamples    []DivViolation // a few calls, for the evidence
-	DivViolations []DivViolation
-	FaultCall     int // absolute call number that was corrupted (0 = none)
-	FaultOutLen   int // items sitting in the output channel when the fault was injected
-	FaultDelivs   int // deliveries recorded when the fault was injected
-	FaultInFlight int
-	FaultAtCreate bool
-	FaultEarly    bool // fault injected before the constructor returned to the harness (output length unknown)
+	DivCalls            int
+	DivSamples          []DivViolation // a few calls, for the evidence
+	DivViolations       []DivViolation
+	FaultCall           int // absolute call number that was corrupted (0 = none)
+	FaultOutLen         int // items sitting in the output channel when the fault was injected
+	FaultDelivs         int // deliveries recorded when the fault was injected
+	FaultInFlight       int
+	FaultAtCreate       bool
+	FaultBeforeClose    bool // the fault had been injected before the epilogue closed the inputs
+	FaultTermOpenInputs bool // after the fault the discipline terminated once everything was released, with its inputs still open
+	FaultEarly          bool // fault injected before the constructor returned to the harness (output length unknown)
 
 	Terminated             bool
 	TerminatedAt           int64
